@@ -155,6 +155,30 @@ def main():
                                       % (lv, k, lv[k], max(float(np.max(np.abs(fa[k] - f1[0]))), float(np.max(np.abs(pa[k] - p1[0])))) / sc_),
                                       {"kind": "analytic_levels", "config": c, "slot": k, "profiles": kind}, klass={"check": "analytic_levels"})
                         break
+    # call history between the two branches: the analytic solve, then the numerical solve of the very same arguments, then
+    # the analytic solve again (and the other way round) - each branch returns its own result, bit for bit
+    for fp in (True, False):
+        c = {"nx": 12, "ny": 10, "ax": 2, "ay": 3, "halo": 6, "mx": 8, "my": 6, "xm": 8 if fp else 0, "ym": 9 if fp else 0, "fp": fp, "an": False, "nz": 16, "lv": [3, 9]}
+        kw = rs.solver_args(c, "const", "double")
+        q = rs.source(c, "smooth", rng)
+        c_other = dict(c, nx=10, ny=8, mx=6, my=4, xm=4 if fp else 0, ym=3 if fp else 0)
+        kw_other = rs.solver_args(c_other, "const", "double")
+        q_other = rs.source(c_other, "smooth", rng)
+
+        def unrelated():            # a solve on another grid in between: whatever single slot an implementation keeps is replaced
+            rs.solve3(q_other, kw_other, srf_bg_conc=0.1)
+
+        unrelated()
+        _, pa1, fa1 = rs.solve3(q, kw, srf_bg_conc=0.4, analytic=True)        # analytic, nothing related before it
+        unrelated()
+        _, pn1, fn1 = rs.solve3(q, kw, srf_bg_conc=0.4)                       # numerical, nothing related before it
+        _, pa2, fa2 = rs.solve3(q, kw, srf_bg_conc=0.4, analytic=True)        # analytic right after the numerical solve
+        _, pn2, fn2 = rs.solve3(q, kw, srf_bg_conc=0.4)                       # numerical right after the analytic solve
+        nslot += 4
+        if not (np.array_equal(pa1, pa2) and np.array_equal(fa1, fa2) and np.array_equal(pn1, pn2) and np.array_equal(fn1, fn2)):
+            chk.violation("uniform profiles (%s mode): the analytic and the numerical solve of the same arguments, run alternately, do not each reproduce their own first result (analytic %.3e, numerical %.3e)"
+                          % ("footprint" if fp else "dispersion", float(np.max(np.abs(fa1 - fa2))), float(np.max(np.abs(fn1 - fn2)))),
+                          {"kind": "analytic_numeric_history", "config": c}, klass={"check": "analytic_numeric_history"})
     chk.extra["numeric_vs_analytic_slots"] = nslot
     chk.traces += len(r.emitted)
     chk.extra["probe_points"] = len(r.emitted)
